@@ -1079,8 +1079,9 @@ pub fn run(args: &Args) -> i32 {
                             "square" => power(&mut rng, 2, &mut ns, false),
                             "cube" => power(&mut rng, 3, &mut ns, false),
                             "prime_exp" => {
-                                let k = [5u32, 7, 11, 13, 17, 19][rng.gen_range(0..6)];
-                                power(&mut rng, k, &mut ns, false)
+                                for k in [5u32, 7, 11, 13, 17, 19] {
+                                    power(&mut rng, k, &mut ns, false)
+                                }
                             }
                             "composite_exp" => {
                                 let k = [4u32, 6, 8, 9, 10, 12, 15, 16, 20, 22, 25, 27][rng.gen_range(0..12)];
